@@ -382,7 +382,11 @@ func genUgmCase(rng *Rng, c *UgmCase, st *Stats, tier string) *ugmRun {
 			live := liveOps()
 			if len(live) == 0 || rng.Chance(12) {
 				// an application that holds nothing is removed (skipped by the driver otherwise)
-				ok = emit(UgmOp{K: "finish", App: rng.Intn(napps)})
+				if rng.Chance(35) {
+					ok = emit(UgmOp{K: "finish", App: rng.Intn(napps)})
+				} else {
+					ok = emit(UgmOp{K: "sched", App: rng.Intn(napps), Res: g.genRes()})
+				}
 				break
 			}
 			k := ugmPick(rng, live)
